@@ -49,6 +49,8 @@ type seekableDecryptingReader struct {
 	segStart  int64 // plaintext offset where the buffered segment begins
 	plaintext []byte
 	segBuf    []byte
+
+	lastVerified bool // the final segment has been authenticated
 }
 
 const (
@@ -112,6 +114,15 @@ func newSeekableDecryptingReader(r io.ReadSeeker, base int64, mainKey []byte, aa
 	plaintextLen := ciphertextLen - int64(tinkHeaderLen) - tinkTagSize*numSegments
 	if plaintextLen < 0 {
 		return nil, errors.New("ciphertext too short for segment count")
+	}
+	// Every segment carries a tag, so the bytes in the final slot must at least
+	// hold one; otherwise the ciphertext was truncated just past a boundary.
+	lastSlot := ciphertextLen - (numSegments-1)*css
+	if numSegments == 1 {
+		lastSlot -= int64(tinkHeaderLen)
+	}
+	if lastSlot < tinkTagSize {
+		return nil, errors.New("ciphertext truncated: last segment shorter than tag")
 	}
 
 	return &seekableDecryptingReader{
@@ -191,6 +202,9 @@ func (s *seekableDecryptingReader) loadSegment(j int64) error {
 		return fmt.Errorf("segment %d decryption failed: %w", j, err)
 	}
 	s.plaintext = plaintext
+	if j == s.numSegments-1 {
+		s.lastVerified = true
+	}
 	s.segIndex = j
 	s.segStart = s.plaintextStartOfSegment(j)
 	return nil
@@ -198,6 +212,14 @@ func (s *seekableDecryptingReader) loadSegment(j int64) error {
 
 func (s *seekableDecryptingReader) Read(p []byte) (int, error) {
 	if s.pos >= s.plaintextLen {
+		// Never report a clean end of stream before the final segment (the one
+		// encrypted with the last-segment flag) has been authenticated; this is
+		// what detects truncation and covers empty / tag-only final segments.
+		if !s.lastVerified {
+			if err := s.loadSegment(s.numSegments - 1); err != nil {
+				return 0, err
+			}
+		}
 		return 0, io.EOF
 	}
 	j := s.segmentForPlaintextOffset(s.pos)
